@@ -16,7 +16,7 @@ Mutation testing (scratch worktree /tmp/ixs-mut, VERIF_REPO, quick tier, seed 1;
 
 META = {
  "engine": "tla-ixbuf",
- "text": "TLC exhausts IxBuf.tla (all valid add/update/delete sequences of up to 5 changes per key over up to 4 buffers, and 2 keys x 2-4 changes x 3 buffers): the merge of the buffers through the code's Combine table equals sequential application to the absent/present state, is itself valid for the base state, never reaches an invalid combination and does not depend on bracketing (up to the offset carried by a delete, a TLC finding); the REAL ixbuf (Insert/Update/Delete incl. returned old offsets, Merge of 2-6 buffers with sizes around the chunk goals and pass-through layouts, merges of merge results, Iter, Len, Check, Lookup, RangeActivity, ranged iterators) is replayed by TLC trace validation: outputs equal the model's ordered duplicate-free entry list, inputs are compared again after every merge",
+ "text": "TLC exhausts IxBuf.tla (all valid add/update/delete sequences of up to 5 changes per key over up to 4 buffers, and 2 keys x 2-4 changes x 3 buffers): the merge of the buffers through the code's Combine table equals sequential application to the absent/present state, is itself valid for the base state, never reaches an invalid combination and does not depend on bracketing (up to the offset carried by a delete, a TLC finding); the REAL ixbuf (Insert/Update/Delete incl. returned old offsets, Merge of 2-6 buffers with sizes around the chunk goals and pass-through layouts, merges of merge results, Iter, Len, Check, Lookup, RangeActivity, RangeApproxDelta, ranged and skip-scan iterators) is replayed by TLC trace validation: outputs equal the model's ordered duplicate-free entry list, inputs are compared again after every merge",
  "note": "trusts TLC/CommunityModules Json, the driver's rank->key table (asserted strictly monotone) and offset-id table; change sequences are generated valid (invalid combinations panic by design); ixbuf.Check() reports a false duplicate for the empty key (its previous-key variable starts as \"\"): tolerated exactly for buffers containing the empty key, not part of C11",
  "technique": "TLA+ model checking (TLC) + trace validation of logged calls on the real ixbuf",
 }
